@@ -15,6 +15,7 @@ EXPLANATION = (
     "Empty event unconditionally; (5) colour vocabulary: DARK_COLOURS is a subset of COLOUR_LIST, without duplicates. "
     "Undecided: the bounded-exhaustive sweep over the class vocabulary x themes (an execution), numeric style values, "
     "preservation of author <style>/<defs> content beyond C04."
+    " Also: every class guard is the bare has_class() test; get_defs()/get_styles() are written unfiltered."
 )
 TRUSTED = ["fmt::Arguments byte-template encoding as documented in core::fmt"]
 ASSUMPTIONS = []
